@@ -4,6 +4,7 @@ from __future__ import annotations
 
 import logging
 import os
+import re
 import shlex
 import signal
 import subprocess
@@ -195,7 +196,14 @@ def write_for_run(
                 spl = line.split()
                 for var in input_settings.keys():
                     if var in spl:
-                        line = line.replace(var, str(input_settings[var]))
+                        # replace the variable where it is a whole word;
+                        # longer words containing its name stay as they are
+                        value = str(input_settings[var])
+                        line = re.sub(
+                            r"(?<!\S)" + re.escape(var) + r"(?!\S)",
+                            lambda _match, value=value: value,
+                            line,
+                        )
                         # remove found item from dict (a variable may occur
                         # on several lines)
                         not_found.pop(var, None)
